@@ -224,7 +224,7 @@ int main(int argc, char** argv) {
               : P->stage == 39 ? "post_destructors" : "runner") << " "
           << (WIFSIGNALED(st) ? (WTERMSIG(st) == SIGVTALRM ? "HANG" : pplv::signal_name(WTERMSIG(st))) : "exit");
         J.line(c.str());
-        if (P->total >= 0 && P->k >= 0 && kind == K_ALLOC) {
+        if (P->total >= 0 && P->k >= 0) {
           // probe: where did the fault of the crashed run fire?
           fflush(stdout);
           pid_t pp = fork();
